@@ -1,0 +1,26 @@
+//go:build verif
+
+// Copyright JAMF Software, LLC
+
+package table
+
+import "github.com/lni/dragonboat/v4"
+
+// Verification hooks, compiled only with the verif build tag. They only export unexported seams.
+
+// VerifCreateTable creates the catalogue record of a table without starting its shard.
+func (m *Manager) VerifCreateTable(name string) (Table, error) { return m.createTable(name) }
+
+// VerifIncAndGetIDSeq allocates the next shard id.
+func (m *Manager) VerifIncAndGetIDSeq() (uint64, error) { return m.incAndGetIDSeq() }
+
+// VerifReconcile runs one reconciliation pass.
+func (m *Manager) VerifReconcile() error { return m.reconcile() }
+
+// VerifCleanup runs one cleanup pass.
+func (m *Manager) VerifCleanup() error { return m.cleanup() }
+
+// VerifDiffTables exposes the pure catalogue-vs-running-shards difference.
+func VerifDiffTables(tables map[string]Table, raftInfo []dragonboat.ShardInfo) (map[uint64]Table, []uint64) {
+	return diffTables(tables, raftInfo)
+}
